@@ -254,7 +254,7 @@ def _subst_val(v, pairs):
     return v
 
 
-def _symbolic_for(interp, s, frame, state, space):
+def _symbolic_for(interp, s, frame, state, space, promoted=None):
     """apply the summary rule in place (frame/state are updated to the post-state)"""
     _, lo, hi, item_fn = space
     st = state
@@ -334,8 +334,34 @@ def _symbolic_for(interp, s, frame, state, space):
     if len(normal) != 1:
         if not normal:
             raise EngineError("loop body has no normal path")
-        normal = [_merge_paths(normal, where)]
+        normal = [_merge_paths(normal, where, lenient=promoted is None)]
     fr1, st1 = normal[0]
+    # ---- accumulators initialised with a number (or an integer frame column) that the first iteration turns into an array
+    # (``acc = 0; for ...: acc += <array>``): summarise from the promoted pre-state, base case checked after iteration lo
+    if promoted is None and _promotion_signals(pre_env, pre_heap, scal_h, fr1, st1):
+        if merged:
+            raise zero_fork      # the promoted closed form describes >= 1 iterations only: take the zero-trip split
+        side0 = len(st.side)
+        outs_p = run_body(pre_env, pre_heap, A.simp(norm(lo)), [])
+        normal_p = [(fr, st2) for fr, st2, out in outs_p if out[0] in ("normal", "continue")]
+        for fr, st2, out in outs_p:
+            if out[0] == "raise":
+                st.side.append(_side_infeasible(st2, f"loop-body-raises:{out[1]}", where))
+            elif out[0] not in ("normal", "continue"):
+                raise EngineError("loop body leaves the loop in its first iteration")
+        if not normal_p:
+            raise EngineError("first loop iteration has no normal path")
+        fr_p, st_p = _merge_paths(normal_p, where, lenient=True) if len(normal_p) > 1 else normal_p[0]
+        keep_side = st.side[side0:]
+        del st.side[side_mark:]
+        prom = _promote(pre_env, pre_heap, fr_p, st_p, st)
+        if prom is not None:
+            env2, gmap = prom
+            frame.env.clear()
+            frame.env.update(env2)
+            r = _symbolic_for(interp, s, frame, state, space, promoted=(fr_p, st_p, gmap, pre_env, pre_heap))
+            st.side.extend(keep_side)
+            return r
     touched = sorted({sid for sid in st1.heap if sid in pre_heap and st1.heap[sid] is not pre_heap[sid]})
     heap_h = dict(pre_heap)
     arr_h = {}
@@ -415,7 +441,7 @@ def _symbolic_for(interp, s, frame, state, space):
         if resolved:
             postv = _subst_val(postv, resolved)
         prev = hfn(idx)
-        summary_heap[sid] = _summarise_array(sid, shape, dt, idx, prev, postv, iz, lo, hi, hv_consts, hv_funcs, pre_heap)
+        summary_heap[sid] = _summarise_array(sid, shape, dt, idx, prev, postv, iz, lo, hi, hv_consts, hv_funcs, pre_heap, interp.loop_opts)
     for sid in other_touched:
         if merged and pre_heap[sid].kind != "file":
             raise zero_fork
@@ -474,6 +500,28 @@ def _symbolic_for(interp, s, frame, state, space):
             print("   ", z3.simplify(g))
     for g in goals:     # one query per carried variable / array cell (small queries)
         st.side.append(_SideGoal("loop-step", g, assum, where))
+    if promoted is not None:
+        # base case of the induction at lo+1: the first iteration executed from the true pre-state gives state(lo+1)
+        fr_p, st_p, gmap, _, _ = promoted
+        env_1, heap_1 = state_at(A.simp(sv.add(lo, 1)))
+        goals1 = []
+        for name in summary_env:
+            if summary_env[name][0] in ("last", "last_obj", "opaque"):
+                continue
+            goals1.extend(_eq_goals(fr_p.env.get(name, _MISSING), env_1[name]))
+        for sid in summary_heap:
+            c = pre_heap[sid]
+            if c.kind == "arr":
+                shape = c.meta["shape"]
+                idx = tuple(sv.fresh_int("y") for _ in shape)
+                rng = [sv.zb(sv.and_(sv.cmp(">=", x, 0), sv.cmp("<", x, d))) for x, d in zip(idx, shape)]
+                real_sid = gmap.get(sid, sid)
+                for g in _eq_goals(st_p.heap[real_sid].data(idx), heap_1[sid].data(idx)):
+                    goals1.append(z3.Implies(z3.And(*rng) if rng else z3.BoolVal(True), g))
+            else:
+                goals1.extend(_cell_eq_goals(st_p.heap[sid], heap_1[sid]))
+        for g in goals1:
+            st.side.append(_SideGoal("loop-init", g, st_p.all_assumptions(), where))
     # init check: state(lo) == pre-state
     env_0, heap_0 = state_at(lo)
     goals0 = []
@@ -491,8 +539,9 @@ def _symbolic_for(interp, s, frame, state, space):
                 goals0.append(z3.Implies(z3.And(*rng) if rng else z3.BoolVal(True), g))
         else:
             goals0.extend(_cell_eq_goals(c, heap_0[sid]))
-    for g in goals0:
-        st.side.append(_SideGoal("loop-init", g, st.all_assumptions(), where))
+    if promoted is None:
+        for g in goals0:
+            st.side.append(_SideGoal("loop-init", g, st.all_assumptions(), where))
     # ---- post-state
     env_f, heap_f = state_at(hi)
     frame.env.clear()
@@ -509,7 +558,14 @@ def _symbolic_for(interp, s, frame, state, space):
                 else:
                     frame.env[name] = UnboundAfterLoop(name, where)
             elif summ[0] != "sum":
-                frame.env[name] = UnboundAfterLoop(name, where)
+                pre, post = pre_env.get(name, _MISSING), summ[1] if len(summ) > 1 else _MISSING
+                if (summ[0] == "last_obj" and isinstance(pre, A.Arr) and isinstance(post, A.Arr) and pre.sid == post.sid
+                        and pre.view is None and post.view is None and pre.sid in pre_heap):
+                    # the name is bound to the same (pre-allocated) array object before and after every iteration
+                    # (A += x, A[...] = x): zero trips leave the same binding; the content is the summarised cell
+                    frame.env[name] = pre
+                else:
+                    frame.env[name] = UnboundAfterLoop(name, where)
     for sid, c in heap_f.items():
         if sid in summary_heap:
             st.heap[sid] = c
@@ -578,6 +634,11 @@ def _eq_goals(a, b):
         a, b = sv.as_cx(a), sv.as_cx(b)
         return _eq_goals(a.re, b.re) + _eq_goals(a.im, b.im)
     if sv.is_scalar(a) and sv.is_scalar(b):
+        # both sides in z3's simplified form: syntactic variants of one term (-x / -1*x, argument order) become identical
+        if isinstance(a, SV) and not a.is_bool:
+            a = sv.wrap(z3.simplify(a.t))
+        if isinstance(b, SV) and not b.is_bool:
+            b = sv.wrap(z3.simplify(b.t))
         r = sv.cmp("==", a, b)
         if is_conc(r):
             return [z3.BoolVal(bool(r))]
@@ -631,8 +692,13 @@ def _instantiate(summ, k, iz, lo, pre):
     raise EngineError(kind)
 
 
-def _summarise_array(sid, shape, dt, idx, prev, postv, iz, lo, hi, hv_consts, hv_funcs, pre_heap):
-    """closed form for the content of an array cell after k iterations"""
+def _summarise_array(sid, shape, dt, idx, prev, postv, iz, lo, hi, hv_consts, hv_funcs, pre_heap, opts=None):
+    """closed form for the content of an array cell after k iterations.
+    opts (Unit.loop_opts): "cond_acc": "sigma-ite" -> a conditional accumulation A[g] += d(i) at a loop-invariant position g
+    gets the closed form pre + Σ_t ite(idx == g, d(t), 0) (the Σ-nesting then mirrors the loop nest at every level) instead
+    of the default ite(idx == g, pre + Σ_t d(t), pre) (which later stores into the same array can be decomposed against).
+    Both forms are checked by the same loop-init / loop-step obligations."""
+    sigma_ite = (opts or {}).get("cond_acc") == "sigma-ite"
     pre_fn = pre_heap[sid].data
     meta = pre_heap[sid].meta
     idz = [x.t for x in idx]
@@ -669,7 +735,7 @@ def _summarise_array(sid, shape, dt, idx, prev, postv, iz, lo, hi, hv_consts, hv
                 def at(k):
                     def fn(ix, k=k):
                         pairs = [(a, sv.znum(b)) for a, b in zip(idz, ix)]
-                        if cond_has_i:
+                        if cond_has_i or sigma_ite:
                             return sv.add(pre_fn(ix), Sum(lo, k, lambda t: ite(sv.wrap(z3.simplify(z3.substitute(cond, *(pairs + [(iz, sv.znum(t))])))),
                                                                                    lambda: _subst_val(dlt, pairs + [(iz, sv.znum(t))]), 0)))
                         c = sv.wrap(z3.simplify(z3.substitute(cond, *pairs))) if pairs else sv.wrap(z3.simplify(cond))
@@ -696,15 +762,121 @@ def _summarise_array(sid, shape, dt, idx, prev, postv, iz, lo, hi, hv_consts, hv
                             def newv():
                                 v = _subst_val(_subst_val(val_p, [(iz, w)]), pairs)
                                 if holes:
-                                    v = _subst_val(v, list(zip(holes, _terms_of(pre_fn(ix)))))
+                                    v = _subst_val(v, list(zip(holes, _z3_parts(pre_fn(ix), holes))))
                                 return v
                             return ite(sv.wrap(z3.simplify(c)), newv, lambda: pre_fn(ix))
                         return Content("arr", A._memo(fn), meta)
                     return at
+                if not holes and not _mentions(z3.simplify(cond), iz):
+                    # (2c) store into a loop-invariant position: A[g] = e(i), g independent of i -> the element keeps the
+                    #      value of the last iteration (last-value form of an array element); checked by loop-step / loop-init
+                    def at(k):
+                        def fn(ix, k=k):
+                            pairs = [(a, sv.znum(b)) for a, b in zip(idz, ix)]
+                            c = z3.And(z3.substitute(cond, *pairs), sv.znum(k) > sv.znum(lo))
+                            return ite(sv.wrap(z3.simplify(c)),
+                                       lambda: _subst_val(_subst_val(val, [(iz, sv.znum(A.simp(sv.sub(k, 1))))]), pairs),
+                                       lambda: pre_fn(ix))
+                        return Content("arr", A._memo(fn), meta)
+                    return at
+            # (2d) read-modify-write with reads of the array's own old content at other index terms: candidate = every
+            #      position is written at most once, so the old content read there is the pre-loop content (the step
+            #      obligation checks the candidate like any other summary)
+            if any(_contains_any(t, hv_consts, hv_funcs) for t in _terms_of(val)):
+                val2 = _replace_own_havoc(val, prev, pre_fn)
+                if val2 is not None and not any(_contains_any(t, hv_consts, hv_funcs) for t in _terms_of(val2)):
+                    sol = _solve_writer(cond, iz, idz)
+                    if sol is not None:
+                        w, residual = sol
+
+                        def at(k):
+                            def fn(ix, k=k):
+                                pairs = [(a, sv.znum(b)) for a, b in zip(idz, ix)]
+                                wk = z3.simplify(z3.substitute(w, *pairs))
+                                c = z3.And(wk >= sv.znum(lo), wk < sv.znum(k), z3.substitute(residual, *pairs))
+                                return ite(sv.wrap(z3.simplify(c)), lambda: _subst_val(_subst_val(val2, [(iz, w)]), pairs),
+                                           lambda: pre_fn(ix))
+                            return Content("arr", A._memo(fn), meta)
+                        return at
+    # (3) accumulation with the difference taken inside the if-then-else alternatives of joined branches
+    delta = _delta(postv, prev)
+    dts = [z3.simplify(t) for t in _terms_of(delta)]
+    if not any(_contains_any(t, hv_consts, hv_funcs) for t in dts):
+        delta = _subst_val(delta, [])
+
+        def at(k):
+            def fn(ix, k=k):
+                pairs = [(a, sv.znum(b)) for a, b in zip(idz, ix)]
+                return sv.add(pre_fn(ix), Sum(lo, k, lambda t: _subst_val(delta, pairs + [(iz, sv.znum(t))])))
+            return Content("arr", A._memo(fn), meta)
+        return at
     import os
     if os.environ.get("PYVC_DEBUG_LOOPS"):
         print("LOOP-DEBUG post:", _subst_val(postv, []), "\n  prev:", prev, "\n  iz:", iz)
     raise EngineError(f"array #{sid}: loop effect is neither an accumulation nor an affine scatter store — needs a written summary")
+
+
+def _replace_own_havoc(val, prev, pre_fn):
+    """replace every application H(args) of the havocked content function(s) of this array inside `val` by the pre-loop
+    content at args"""
+    prev = norm(prev)
+    names = {}
+    if isinstance(prev, Cx):
+        parts = (("re", prev.re), ("im", prev.im))
+    else:
+        parts = ((None, prev),)
+    for tag, pt in parts:
+        if not (isinstance(pt, SV) and z3.is_app(pt.t) and pt.t.decl().kind() == z3.Z3_OP_UNINTERPRETED and pt.t.num_args() > 0):
+            return None
+        names[pt.t.decl().name()] = tag
+    pairs = []
+    seen = set()
+    stack = list(_terms_of(val))
+    while stack:
+        e = stack.pop()
+        if e.get_id() in seen:
+            continue
+        seen.add(e.get_id())
+        if z3.is_app(e) and e.decl().kind() == z3.Z3_OP_UNINTERPRETED and e.decl().name() in names:
+            pv = norm(pre_fn(tuple(sv.wrap(a) for a in e.children())))
+            tag = names[e.decl().name()]
+            if isinstance(pv, Cx):
+                pv = pv.re if tag != "im" else pv.im
+            elif tag == "im":
+                pv = 0
+            pairs.append((e, sv.zr(pv) if z3.is_real(e) else sv.z(pv)))
+        stack.extend(e.children())
+    if not pairs:
+        return None
+    return _subst_val(val, pairs)
+
+
+def _delta(postv, prev):
+    postv, prev = norm(postv), norm(prev)
+    if isinstance(postv, Cx) or isinstance(prev, Cx):
+        a, b = sv.as_cx(postv), sv.as_cx(prev)
+        return Cx(_delta(a.re, b.re), _delta(a.im, b.im))
+    if isinstance(postv, SV) and not postv.is_bool and z3.is_app(postv.t) and postv.t.decl().kind() == z3.Z3_OP_ITE:
+        c, x, y = postv.t.children()
+        return ite(sv.wrap(c), _delta(sv.wrap(x), prev), _delta(sv.wrap(y), prev))
+    return sv.sub(postv, prev)
+
+
+def _z3_parts(v, like):
+    """z3 terms of the components of a scalar value (re, im for complex), also for concrete values, in the sorts of `like`"""
+    v = norm(v)
+    parts = [v.re, v.im] if isinstance(v, Cx) else [v]
+    if len(parts) < len(like):
+        parts = parts + [0] * (len(like) - len(parts))
+    out = []
+    for x, h in zip(parts, like):
+        if z3.is_bool(h):
+            out.append(sv.zb(x))
+        elif z3.is_int(h):
+            out.append(sv.znum(x))
+        else:
+            out.append(sv.zr(x))
+    return out
 
 
 def _decompose_store(postv, prev):
@@ -741,8 +913,26 @@ def _decompose_store(postv, prev):
         return z3.BoolVal(True), t
     cond, val = dec(postv.t)
     if val is None or z3.is_false(cond) or z3.is_true(cond):
-        return None
+        return _decompose_store_simplified(postv, prev)
     return cond, sv.wrap(val)
+
+
+def _decompose_store_simplified(postv, prev):
+    """no leaf of the ite-tree is syntactically `prev`: bring the term to z3's simplified form and take cofactors (inside the
+    then-branch the guard is true, inside the else-branch it is false)"""
+    t = postv.t
+    if z3.is_app(t) and t.decl().kind() == z3.Z3_OP_ITE:
+        ts = z3.simplify(t)
+        if z3.is_app(ts) and ts.decl().kind() == z3.Z3_OP_ITE:
+            c2, x2, y2 = ts.children()
+            x2 = z3.simplify(z3.substitute(x2, (c2, z3.BoolVal(True))))
+            y2 = z3.simplify(z3.substitute(y2, (c2, z3.BoolVal(False))))
+            ps = z3.simplify(prev.t)
+            if ps.eq(y2):
+                return c2, sv.wrap(x2)
+            if ps.eq(x2):
+                return z3.Not(c2), sv.wrap(y2)
+    return None
 
 
 def _index_equalities(cond, idz):
@@ -1049,7 +1239,9 @@ def _rebind_obj(v, st1, st, iz, last):
         c = st1.heap.get(v.sid)
         if c is None:
             return v
-        if v.sid in st.heap and st.heap[v.sid] is c:
+        if v.sid in st.heap:
+            # the cell exists outside the loop body (allocated before the loop): its content after the loop is the one the
+            # summary installed (or the unchanged pre-loop content), never the discovery run's havocked content
             return v
         fn = c.data
 
@@ -1072,17 +1264,24 @@ def _rebind_obj(v, st1, st, iz, last):
     return v
 
 
-def _merge_paths(paths, where):
+def _merge_paths(paths, where, lenient=False):
     """merge the normal end states of a forked loop body into one state: values become ite-terms over the path guards.
     The guards are the parts of the path conditions after the longest common prefix; the paths come from branch splits,
-    so their guards are mutually exclusive and jointly exhaustive under the common prefix."""
+    so their guards are mutually exclusive and jointly exhaustive under the common prefix.
+    lenient (discovery / first-iteration probe only): a numeric accumulator that some branches have already turned into an
+    array is joined as the constant array (number (+) array broadcasts to the array's shape)."""
     pcs = [st.pc for _, st in paths]
     n_common = 0
     while all(len(pc) > n_common for pc in pcs) and all(pc[n_common].eq(pcs[0][n_common]) for pc in pcs):
         n_common += 1
+    tails = [pc[n_common:] for pc in pcs]
+    common_ids = set(t.get_id() for t in tails[0])
+    for tl in tails[1:]:
+        common_ids &= set(t.get_id() for t in tl)
+    common = [t for t in tails[0] if t.get_id() in common_ids]      # side conditions assumed on every branch
     guards = []
-    for pc in pcs:
-        extra = pc[n_common:]
+    for tl in tails:
+        extra = [t for t in tl if t.get_id() not in common_ids]
         guards.append(sv.wrap(z3.And(*extra)) if len(extra) > 1 else (sv.wrap(extra[0]) if extra else True))
 
     def merge_scalar(vals):
@@ -1092,19 +1291,84 @@ def _merge_paths(paths, where):
         return out
     fr0, st0 = paths[0]
     stm = st0.fork()
-    stm.pc = list(pcs[0][:n_common])
+    stm.pc = list(pcs[0][:n_common]) + common
+    if all(isinstance(g, SV) for g in guards):
+        # the normal paths are all that is left of the body (raising paths are separate `infeasible` side obligations)
+        anyg = z3.simplify(z3.Or(*[g.t for g in guards]))
+        if not z3.is_true(anyg):
+            stm.pc.append(anyg)
     stm.decisions = {k: v for k, v in st0.decisions.items() if all(k in st.decisions and st.decisions[k][0] == v[0] for _, st in paths)}
+    stm.fresh = max(st.fresh for _, st in paths)
     stm.events = [e for _, st in paths for e in st.events]
     stm.trace = list(st0.trace)
     for _, st in paths[1:]:
         if len(st.trace) != len(st0.trace):
             raise EngineError(f"loop body at {where}: branches differ in their write/trace events")
+    states = [st for _, st in paths]
+
+    def same_shape(shapes):
+        return all(len(sh) == len(shapes[0]) and all(A.dim_eq_syntactic(x, y) for x, y in zip(sh, shapes[0])) for sh in shapes)
+
+    def merge_val(vals):
+        """joined value, or _MISSING when the alternatives cannot be joined"""
+        v0 = vals[0]
+        if all(v is v0 for v in vals):
+            return v0
+        nv = [norm(v) if sv.is_scalar(norm(v)) else v for v in vals]
+        if all(sv.is_scalar(v) for v in nv):
+            return merge_scalar(nv)
+        if all(isinstance(v, A.Arr) for v in nv):
+            if all(v.sid == nv[0].sid for v in nv) and all(_same_view(v.view, nv[0].view) for v in nv):
+                return nv[0]
+            shapes = []
+            readers = []
+            for st, v in zip(states, nv):
+                with use_state(st):
+                    shapes.append(tuple(v.shape))
+                    readers.append(v.reader())
+            if same_shape(shapes):
+                with use_state(stm):
+                    return A.new_arr(shapes[0], lambda idx, readers=readers: merge_scalar([r(idx) for r in readers]), A.promote(*[v.dtype for v in nv]))
+            return _MISSING
+        arrs = [v for v in nv if isinstance(v, A.Arr)]
+        if lenient and arrs and all(isinstance(v, A.Arr) or _is_num(v) for v in nv):
+            shapes, readers = [], []
+            for st, v in zip(states, nv):
+                if isinstance(v, A.Arr):
+                    with use_state(st):
+                        shapes.append(tuple(v.shape))
+                        readers.append(v.reader())
+                else:
+                    readers.append(lambda idx, v=v: v)
+            if same_shape(shapes):
+                dt = A.promote(*[v.dtype if isinstance(v, A.Arr) else A.scalar_dtype(v) for v in nv])
+                with use_state(stm):
+                    return A.new_arr(shapes[0], lambda idx, readers=readers, dt=dt: merge_scalar([A._cast(r(idx), dt) for r in readers]), dt)
+            return _MISSING
+        if all(isinstance(v, Ref) for v in nv) and all(v.sid == nv[0].sid for v in nv):
+            return nv[0]
+        if all(isinstance(v, tuple) for v in nv) and all(len(v) == len(nv[0]) for v in nv):
+            parts = [merge_val([v[k] for v in nv]) for k in range(len(nv[0]))]
+            return _MISSING if any(x is _MISSING for x in parts) else tuple(parts)
+        if all(isinstance(v, (str, type(None))) for v in nv) and all(v == nv[0] for v in nv):
+            return nv[0]
+        return _MISSING
+
+    def need(v, what):
+        if v is _MISSING:
+            raise EngineError(f"loop body at {where}: branches leave {what} that cannot be joined — needs a written summary")
+        return v
     # heap
-    sids = set()
-    for _, st in paths:
-        sids |= set(st.heap)
+    sids = []
+    seen = set()
+    for st in states:
+        for sid in st.heap:
+            if sid not in seen:
+                seen.add(sid)
+                sids.append(sid)
+    later = []
     for sid in sids:
-        cells = [st.heap.get(sid) for _, st in paths]
+        cells = [st.heap.get(sid) for st in states]
         if any(c is None for c in cells):
             c = next(c for c in cells if c is not None)
             stm.heap[sid] = c
@@ -1113,7 +1377,11 @@ def _merge_paths(paths, where):
             stm.heap[sid] = cells[0]
             continue
         kind = cells[0].kind
-        if kind == "arr" and all(c.kind == "arr" for c in cells):
+        if any(c.kind != kind for c in cells):
+            raise EngineError(f"loop body at {where}: a heap cell changes kind on a branch")
+        if kind == "arr":
+            if not same_shape([tuple(c.meta["shape"]) for c in cells]):
+                raise EngineError(f"loop body at {where}: an array cell changes shape on a branch")
             fns = [c.data for c in cells]
 
             def fn(idx, fns=fns):
@@ -1124,34 +1392,47 @@ def _merge_paths(paths, where):
             d["pos"] = merge_scalar([c.data["pos"] for c in cells])
             stm.heap[sid] = Content("file", d, cells[0].meta)
         else:
+            stm.heap[sid] = cells[0]
+            later.append((sid, cells))
+    for sid, cells in later:       # cells holding values (joined after the arrays they may refer to)
+        c0 = cells[0]
+        kind = c0.kind
+        if kind in ("dict", "obj"):
+            keys = list(c0.data.keys())
+            if any(list(c.data.keys()) != keys for c in cells):
+                raise EngineError(f"loop body at {where}: a dictionary/object gets different keys on different branches")
+            stm.heap[sid] = Content(kind, {k: need(merge_val([c.data[k] for c in cells]), f"entry {k!r}") for k in keys}, c0.meta)
+        elif kind == "df":
+            o = c0.data["order"]
+            if any(c.data["order"] != o for c in cells) or any(c.data["cols"][k].sid != c0.data["cols"][k].sid for c in cells for k in o):
+                raise EngineError(f"loop body at {where}: DataFrame columns replaced on a branch")
+            stm.heap[sid] = c0
+        elif kind == "list" and all(not isinstance(c.data, A.SeqVal) and len(c.data) == len(c0.data) for c in cells):
+            stm.heap[sid] = Content("list", tuple(need(merge_val([c.data[k] for c in cells]), "a list item") for k in range(len(c0.data))), c0.meta)
+        else:
             raise EngineError(f"loop body at {where}: branches modify a {kind} cell differently — needs a written summary")
     # environment
     frm = fr0.clone()
     names = set()
     for fr, _ in paths:
         names |= set(fr.env)
-    for nme in names:
+    for nme in sorted(names):
         vals = [fr.env.get(nme, _MISSING) for fr, _ in paths]
         if any(v is _MISSING for v in vals):
             frm.env.pop(nme, None)     # defined on some branches only: not live after the body (checked when read)
             continue
-        if all(v is vals[0] for v in vals):
-            continue
-        nv = [norm(v) if sv.is_scalar(norm(v)) else v for v in vals]
-        if all(sv.is_scalar(v) for v in nv):
-            frm.env[nme] = merge_scalar(nv)
-        elif all(isinstance(v, A.Arr) for v in nv) and all(v.sid == nv[0].sid for v in nv):
-            frm.env[nme] = nv[0]
-        elif all(isinstance(v, A.Arr) for v in nv) and all(A.dim_eq_syntactic(len(v.shape), len(nv[0].shape)) for v in nv):
-            readers = []
-            for (fr, st), v in zip(paths, nv):
-                with use_state(st):
-                    readers.append(v.reader())
-            with use_state(stm):
-                frm.env[nme] = A.new_arr(nv[0].shape, lambda idx, readers=readers: merge_scalar([r(idx) for r in readers]), nv[0].dtype)
-        else:
+        v = merge_val(vals)
+        if v is _MISSING:
             frm.env.pop(nme, None)
+        else:
+            frm.env[nme] = v
     return frm, stm
+
+
+def _same_view(a, b):
+    if a is None or b is None:
+        return a is b
+    return repr(a.base) == repr(b.base) and repr(a.shape) == repr(b.shape)
 
 
 def _summarise_multi(interp, s, frame, st, lo, hi, item_fn, normal, i, scal_h, pre_env, pre_heap, where):
@@ -1305,3 +1586,87 @@ def scatter_nest_rule(interp, s, frame, st, lo, hi, item_fn):
     for name in _assigned_names([s]):
         frame.env[name] = UnboundAfterLoop(name, where)
     return None
+
+
+# ----------------------------------------------------------------------------------------------
+# promotion of numeric accumulators
+
+
+def _is_num(v):
+    v = norm(v)
+    return isinstance(v, (int, sv.Fraction)) and not isinstance(v, bool)
+
+
+def _promotion_signals(pre_env, pre_heap, scal_h, fr1, st1):
+    for name in scal_h:
+        if _is_num(pre_env.get(name)) and isinstance(fr1.env.get(name), A.Arr):
+            return True
+    for sid, c in pre_heap.items():
+        c1 = st1.heap.get(sid)
+        if c1 is None or c1 is c:
+            continue
+        if c.kind == "dict" and c1.kind == "dict":
+            for k, v in c.data.items():
+                if _is_num(v) and isinstance(c1.data.get(k), A.Arr):
+                    return True
+        if c.kind == "df" and c1.kind == "df" and c.data["order"] == c1.data["order"]:
+            for k in c.data["order"]:
+                a, b = c.data["cols"][k], c1.data["cols"][k]
+                if a.sid != b.sid and a.dtype != b.dtype:
+                    return True
+    return False
+
+
+def _promote(pre_env, pre_heap, fr_p, st_p, st):
+    """ghost pre-state in which every numeric accumulator that the first iteration replaced by a fresh array (number (+) array,
+    integer frame column (+) float array) already is an array of that shape and dtype holding the same values.
+    Returns (env, {ghost sid: sid of the array the first iteration really produced}) or None; st.heap is updated."""
+    gmap = {}
+    env = dict(pre_env)
+
+    def fresh_arr(v):
+        return isinstance(v, A.Arr) and v.view is None and v.sid not in pre_heap
+
+    def ghost_const(c, post):
+        shape = tuple(st_p.heap[post.sid].meta["shape"])
+        val = A._cast(norm(c), post.dtype)
+        sid = st.alloc(Content("arr", (lambda idx, val=val: val), {"shape": shape}))
+        gmap[sid] = post.sid
+        return A.Arr(sid, None, post.dtype)
+
+    for name, v in pre_env.items():
+        post = fr_p.env.get(name)
+        if _is_num(v) and fresh_arr(post):
+            env[name] = ghost_const(v, post)
+    for sid, c in list(pre_heap.items()):
+        c1 = st_p.heap.get(sid)
+        if c1 is None or c1 is c:
+            continue
+        if c.kind == "dict" and c1.kind == "dict" and list(c.data.keys()) == list(c1.data.keys()):
+            d = dict(c.data)
+            ch = False
+            for k, v in c.data.items():
+                if _is_num(v) and fresh_arr(c1.data[k]):
+                    d[k] = ghost_const(v, c1.data[k])
+                    ch = True
+            if ch:
+                st.heap[sid] = Content("dict", d, c.meta)
+        elif c.kind == "df" and c1.kind == "df" and c.data["order"] == c1.data["order"] and A.dim_eq_syntactic(c.data["n"], c1.data["n"]):
+            cols = dict(c.data["cols"])
+            ch = False
+            for k in c.data["order"]:
+                a, b = c.data["cols"][k], c1.data["cols"][k]
+                if a.sid != b.sid and fresh_arr(b) and a.dtype != b.dtype and A.promote(a.dtype, b.dtype) == b.dtype:
+                    r = pre_heap[a.sid].data if a.view is None else None
+                    if r is None:
+                        continue
+                    dt = b.dtype
+                    gs = st.alloc(Content("arr", A._memo(lambda idx, r=r, dt=dt: A._cast(r(idx), dt)), {"shape": tuple(pre_heap[a.sid].meta["shape"])}))
+                    gmap[gs] = b.sid
+                    cols[k] = A.Arr(gs, None, dt)
+                    ch = True
+            if ch:
+                st.heap[sid] = Content("df", {"cols": cols, "order": list(c.data["order"]), "n": c.data["n"]}, c.meta)
+    if not gmap:
+        return None
+    return env, gmap
